@@ -457,7 +457,7 @@ func (n *Node) Build(s Spec) (*blockchain.Block, error) {
 		ValidatorsHash:     vh,
 		AggregateCommit:    agg,
 	}
-	h.Sign(ChainID, gen.EdPriv)
+	h.Sign(ChainID, n.SignerFor(height, gen).EdPriv)
 	return &blockchain.Block{Header: h, Transactions: txs, Assets: assets}, nil
 }
 
@@ -479,6 +479,48 @@ func sameParams(a, b *NextParams) bool {
 }
 
 // Resign re-signs a (mutated) header with the given key and refreshes its ID.
+// AltGenAt: which validators (pool index) are expected to sign with their alternate generator key at the given height,
+// derived from the chain content alone (the latest validator update below that height; the genesis configuration otherwise) -
+// not from what the engine has stored, so that a lost key rotation shows.
+func (n *Node) AltGenAt(height uint32) map[int]bool {
+	out := map[int]bool{}
+	set := func(p *NextParams) map[int]bool {
+		for _, ix := range p.AltGen {
+			out[ix] = true
+		}
+		return out
+	}
+	for h := int64(height) - 1; h > int64(n.Cfg.GenesisHeight); h-- {
+		b, err := n.Chain.DataAccess().GetBlockByHeight(uint32(h))
+		if err != nil {
+			break
+		}
+		if sc := ScriptOf(b.Assets); sc.Next != nil {
+			return set(sc.Next)
+		}
+	}
+	return set(&n.Cfg.Genesis)
+}
+
+// SignerFor returns the key material validator k signs block headers with at the given height (a copy whose EdPub/EdPriv are
+// the generator key pair in force).
+func (n *Node) SignerFor(height uint32, k *Key) *Key {
+	c := *k
+	if n.AltGenAt(height)[k.Index] {
+		c.EdPub, c.EdPriv = k.EdPub2, k.EdPriv2
+	}
+	return &c
+}
+
+// OtherSignerFor returns the generator key pair of k that is NOT in force at the height (the revoked or not yet valid one).
+func (n *Node) OtherSignerFor(height uint32, k *Key) *Key {
+	c := *k
+	if !n.AltGenAt(height)[k.Index] {
+		c.EdPub, c.EdPriv = k.EdPub2, k.EdPriv2
+	}
+	return &c
+}
+
 func Resign(b *blockchain.Block, k *Key) {
 	b.Header.Sign(ChainID, k.EdPriv)
 }
